@@ -10,8 +10,10 @@ import (
 	"fmt"
 	"os"
 	"strings"
+	"sync"
 	"time"
 
+	"verif/internal/c03"
 	"verif/internal/evid"
 	"verif/internal/l1"
 	"verif/internal/l2"
@@ -20,22 +22,34 @@ import (
 func main() {
 	r := evid.New("C03", "exploration")
 	nL2 := r.Pick(8, 300)
+	// L2 family l2-blockfail (scenario indices nL2 .. nL2+nL2BF-1; the first
+	// one is seed-independent): see internal/c03/l2blockfail.go.
+	nL2BF := r.Pick(3, 60)
 	l2scen := func(seed int64, k int, res *l2.Result) {
+		if k >= nL2 {
+			c03.L2BlockFail(seed, k-nL2, res)
+			return
+		}
 		res.Name = fmt.Sprintf("c03-l2-%d", k)
 		l2.RunReorgSync(l2.ReorgSyncPlanFromSeed(seed, k), res)
 	}
 	if l2.IsChild() {
-		l2.RunScenarios(r, nL2, 300*time.Second, l2scen)
+		l2.RunScenarios(r, nL2+nL2BF, 300*time.Second, l2scen)
 	}
 	r.Rule("seeded L1 filter sessions: generated chains with real blocks and BIP158 filters (20-320 blocks: at-tip path; 1000-3300: checkpointed path with partial first intervals), 1-5 peers with behaviours honest / lying at a height in cfheaders+filters (omit-script, wrong-hash, unserved = provable; extra-element = unprovable) / lying in checkpoints only / wrong prev header / wrong count / short or long checkpoint list / silent; honest-chain growth and reorganisations between rounds and, in the serial class, a reorganisation injected at the cf.beforeWrite / cf.afterWrite pause points, and injected hard-coded filter checkpoints (true and contradicting). After every block-manager call the committed filter chain is re-read and checked: not ahead of blocks, equals ground truth in provable sessions, otherwise derivable from served hashes, equals checkpoints, by-hash lookups agree, nothing survives for disconnected blocks; at the end liars banned / honest not banned. distinct = (session class, behaviours multiset, step kind, reorg presence, outcome); non-trivial = the step changed the filter store or banned a peer")
 	r.Assume("ground-truth filters/headers come from btcd gcs/builder over generated blocks; scripted queryAllPeers/Dispatcher mimic the real ones' serial callback discipline (real ones are exercised by the network-simulation checks)")
 	nTip, nCp, nHook := r.Pick(40, 1800), r.Pick(24, 900), r.Pick(12, 450)
 	r.Rule("family multicp (sessions with two or three hard-coded filter-header checkpoints at 1000/2000/3000, chains of 2050-3250 blocks): liars whose checkpoint list is false at an OLDER hard-coded height and equal to the newest one it covers, either in the list only or with cfheaders chained consistently with the list; peer sets: the liar alone / every responding peer tells the same lie / liars next to honest (and silent) peers; the first plans are seed-independent. Same oracle, plus: every peer whose list, as handed to resolveConflict, differs from a hard-coded checkpoint is banned when that call returns. fingerprint additionally carries the family name")
 	nMulti := r.Pick(9, 240)
+	r.Rule("family blockfail (scripted failures of the block download the client arbitrates a filter-header conflict with): a coalition of 1-4 peers serving one identical self-consistent false filter for a block (an output script omitted; sometimes an unprovable padded filter) next to 1-3 honest peers it mostly outnumbers (also ties and minorities), optionally a wrong-hash/unserved liar about the same block, a second disputed block or a silent peer; GetBlock fails the first 1-3 times per block / overall, or for the whole session; for every block, only for disputed blocks, or (control) only for undisputed ones; errors: query timeout, job canceled, no peer delivered; both conflict paths (at-tip; differing checkpoint lists on chains of 1000-2300 blocks); growth/reorganisations between rounds. The first plans are seed-independent (2 liars + 1 honest, at the tip, one failed download; the same between checkpoint lists; 3 liars + 1 honest and the block never arrives; two failed rounds with a fourth wrong-hash peer and growth). Same oracle; a session that ends behind while the scripted download failed in its last three rounds gets no verdict from the progress rule. fingerprint additionally carries the family name and the fault")
+	nBF := r.Pick(16, 400)
 	cbs := l1.FilterCallbacks{
 		OnStep: func(fs *l1.FilterSession, st *l1.StepObs) {
 			changed := len(st.PreF) != len(st.PostF)
 			fp := fmt.Sprintf("%s|%s|chg=%v|reorgAt=%s|cps=%d", behaviours(fs), st.Kind, changed, fs.Plan.ReorgAt, len(fs.Plan.FilterCPs))
+			if !fs.Plan.BlockFault.Off() {
+				fp += fmt.Sprintf("|blockfault=%s|failed-in-step=%v", fs.Plan.BlockFault, blockFailedInStep(fs))
+			}
 			if fs.Plan.Family != "" {
 				fp += "|" + fs.Plan.Family
 				if st.Kind == "cf.resolve" {
@@ -80,9 +94,12 @@ func main() {
 			r.Count("bans_observed", int64(len(fs.Bans)))
 			r.Count("lists_contradicting_a_hardcoded_checkpoint", int64(fs.CPListsContradicting))
 			r.Count("lists_false_at_older_checkpoint_only", int64(fs.CPListsOlderOnly))
-			if fs.Plan.Family != "" {
+			if fs.Plan.Family != "" && fs.Plan.BlockFault.Off() {
 				r.Count("multicp_sessions", 1)
 				r.Count("sessions:"+fs.Plan.Family, 1)
+			}
+			if !fs.Plan.BlockFault.Off() {
+				countBlockFail(r, fs, len(st.PostF) < len(st.Post))
 			}
 			r.Count("queryAllPeers_calls", int64(fs.Net.QueriesAll))
 			r.Count("dispatcher_batches", int64(fs.Net.QueriesBatch))
@@ -90,10 +107,11 @@ func main() {
 				"final_block_tip": len(st.Post) - 1, "final_filter_tip": len(st.PostF) - 1})
 		},
 	}
-	// Development aid: C03_MULTICP_ONLY=1 runs only the multicp family (and
+	// Development aid: C03_MULTICP_ONLY=1 / C03_BLOCKFAIL_ONLY=1 run only that family (and
 	// prints every session's script); never set by registered commands.
 	devOnly := os.Getenv("C03_MULTICP_ONLY") != ""
-	if devOnly {
+	devBF := os.Getenv("C03_BLOCKFAIL_ONLY") != ""
+	if devOnly || devBF {
 		end := cbs.OnEnd
 		cbs.OnEnd = func(fs *l1.FilterSession, err error) {
 			if fs != nil {
@@ -101,16 +119,101 @@ func main() {
 			}
 			end(fs, err)
 		}
-		l1.RunMultiCPFilter(r.Seed, nMulti, cbs)
+		if devBF {
+			l1.RunBlockFailFilter(r.Seed, nBF, cbs)
+		} else {
+			l1.RunMultiCPFilter(r.Seed, nMulti, cbs)
+		}
 		r.Finish(1)
 	}
 	l1.RunManyFilter(r.Seed, nTip, nCp, nHook, cbs)
 	l1.RunMultiCPFilter(r.Seed, nMulti, cbs)
+	l1.RunBlockFailFilter(r.Seed, nBF, cbs)
 	// L2 part: the REAL cfHandler loop (cached checkpoints, waits, retries),
 	// real queryAllPeers and work manager, with a reorganisation arriving
 	// while block headers are still syncing and filter headers are part-way.
-	l2.RunScenarios(r, nL2, 300*time.Second, l2scen)
+	r.Rule("L2 family l2-blockfail (complete client, wire-level peers): 2-3 peers serve one identical filter that omits an output script of a block (at-tip conflict), 1-2 peers are honest and outnumbered, every peer is connected before block headers are served, and every getdata naming the disputed block goes unanswered during the first 1-2 conflict rounds (QueryNumRetries=1: the client's block download gives up after one attempt), after which the block is served; oracle on the stores and the ban state: committed filter headers equal the ground truth, no honest peer banned, the liars banned once the disputed height is committed")
+	l2.RunScenarios(r, nL2+nL2BF, 300*time.Second, l2scen)
 	r.Finish(15)
+}
+
+// blockFailedInStep: did a scripted block-download failure occur since the
+// previous step of this session was fingerprinted?
+func blockFailedInStep(fs *l1.FilterSession) bool {
+	n := fs.Net.BlockFaultCount()
+	seenMu.Lock()
+	defer seenMu.Unlock()
+	prev := seenFaults[fs]
+	seenFaults[fs] = n
+	return n > prev
+}
+
+var (
+	seenMu     sync.Mutex
+	seenFaults = map[*l1.FilterSession]int{}
+)
+
+// countBlockFail records what a session of the blockfail family observed.
+func countBlockFail(r *evid.Run, fs *l1.FilterSession, behind bool) {
+	seenMu.Lock()
+	delete(seenFaults, fs)
+	seenMu.Unlock()
+	r.Count("blockfail_sessions", 1)
+	r.Count("sessions:"+fs.Plan.Family, 1)
+	calls, failed, okAfterFail := 0, 0, 0
+	failedAt := map[int32]bool{}
+	for _, c := range fs.Net.BlockCalls {
+		calls++
+		switch {
+		case c.Failed:
+			failed++
+			failedAt[c.Height] = true
+		case failedAt[c.Height]:
+			okAfterFail++
+		}
+	}
+	r.Count("blockfail_block_downloads", int64(calls))
+	r.Count("blockfail_block_downloads_failed", int64(failed))
+	r.Count("blockfail_block_downloads_succeeding_after_a_failure", int64(okAfterFail))
+	rounds := 0
+	for _, n := range fs.RoundBlockFails {
+		if n > 0 {
+			rounds++
+		}
+	}
+	r.Count("blockfail_rounds_with_failed_download", int64(rounds))
+	if failed > 0 {
+		r.Count("blockfail_sessions_with_failed_download", 1)
+		path := "tip"
+		if strings.Contains(strings.Join(fs.Steps, "\n"), "cf.resolve") {
+			path = "checkpoint-lists"
+		}
+		liars, honest := 0, 0
+		for _, b := range fs.Plan.Behaviours {
+			switch {
+			case b.Honest():
+				honest++
+			case len(b.Lies) > 0:
+				liars++
+			}
+		}
+		rel := "liars<=honest"
+		if liars > honest {
+			rel = "liars>honest"
+		}
+		r.Mark(fmt.Sprintf("blockfail|download-failed|%s|%s|behind-at-end=%v", path, rel, behind))
+	}
+	if behind && fs.BlockDownloadFailing() {
+		r.Count("blockfail_sessions_behind_while_download_failing(no_progress_verdict)", 1)
+	}
+	// The seed-independent plans must reach the shape they are there for.
+	if fs.Plan.Seed == l1.BlockFailPlanFromSeed(0, int(fs.Plan.Seed-880001)&3).Seed {
+		if failed == 0 {
+			r.Inconclusive("blockfail-fixed-plan-did-not-reach-a-failed-download")
+		} else {
+			r.Count("blockfail_fixed_plans_reaching_a_failed_download", 1)
+		}
+	}
 }
 
 func behaviours(fs *l1.FilterSession) string {
